@@ -247,7 +247,9 @@ where
     }
 
     fn call(&mut self, req: Req) -> Self::Future {
-        let mut service = self.inner.clone();
+        // Take the instance that was driven to readiness; leave a fresh clone behind
+        let clone = self.inner.clone();
+        let mut service = std::mem::replace(&mut self.inner, clone);
         let config = Arc::clone(&self.config);
 
         // Extract max_attempts from request before moving it
@@ -257,6 +259,11 @@ where
             let mut attempt = 0;
 
             loop {
+                if attempt > 0 {
+                    // The first attempt uses the readiness observed by poll_ready;
+                    // every retry must observe readiness again before calling.
+                    futures::future::poll_fn(|cx| service.poll_ready(cx)).await?;
+                }
                 let result = service.call(req.clone()).await;
 
                 match result {
